@@ -22,17 +22,17 @@ import (
 type entryKind int
 
 const (
-	eServed     entryKind = iota // source answered BlockByNumber with a block
-	eServeErr                    // source answered BlockByNumber with an error
-	eLatest                      // source answered BlockHeaderLatest
-	eLatestErr                   //
-	eStored                      // commit: chain grew
-	eReverted                    // commit: head removed
-	eJump                        // commit: head changed in any other way (never expected)
-	eNewHead                     // received on the new-heads feed
-	eReorg                       // received on the reorg feed
-	eOnReorg                     // sync listener OnReorg(n)
-	eEpoch                       // the source switched to another chain
+	eServed    entryKind = iota // source answered BlockByNumber with a block
+	eServeErr                   // source answered BlockByNumber with an error
+	eLatest                     // source answered BlockHeaderLatest
+	eLatestErr                  //
+	eStored                     // commit: chain grew
+	eReverted                   // commit: head removed
+	eJump                       // commit: head changed in any other way (never expected)
+	eNewHead                    // received on the new-heads feed
+	eReorg                      // received on the reorg feed
+	eOnReorg                    // sync listener OnReorg(n)
+	eEpoch                      // the source switched to another chain
 )
 
 type entry struct {
@@ -62,16 +62,16 @@ type recorder struct {
 	chain   []headRec // tracked local chain (genesis first) as seen through commits
 	enabled bool
 
-	stores        int // commits that grew the chain
-	reorgsOwed    int // stores that happened with reverts pending before them
-	pendingRevert int // reverts since the last store
-	recvNewHead   int
-	recvReorg     int
-	drains        int
-	lostWait      bool // a drain timed out once: stop waiting
-	lastCommitSeq int  // log position of the last commit
+	stores             int // commits that grew the chain
+	reorgsOwed         int // stores that happened with reverts pending before them
+	pendingRevert      int // reverts since the last store
+	recvNewHead        int
+	recvReorg          int
+	drains             int
+	lostWait           bool // a drain timed out once: stop waiting
+	lastCommitSeq      int  // log position of the last commit
 	lastStoreOwedReorg bool
-	checkStored   func(num uint64, hash felt.Felt) string // "" = content equals the valid block
+	checkStored        func(num uint64, hash felt.Felt) string // "" = content equals the valid block
 }
 
 func newRecorder() *recorder {
